@@ -44,12 +44,12 @@ ASSUMPTIONS = [
     "(0, 0) point prepended (the mechanism named in the property anchors); scipy CubicSpline is the harness's "
     "independent evaluation of it (agreement with the library's interp1d: 1e-15 relative)",
     "the weight of width w_i is dist_i*(w_i - w_{i-1}) with w_{-1} = 0 (first bin starts at zero width)",
-    "'within the optimiser tolerance': SLSQP stops on an absolute change of the squared residual (ftol 1e-4 "
-    "(mmol/g)^2), i.e. an absolute residual scale of sqrt(ftol)=1e-2 mmol/g; the clause asserted is residual RMS <= "
+    "'within the optimiser tolerance' (written for the SLSQP solver of the pinned tree, kept for the NNLS solver of the "
+    "repaired one): an absolute residual scale of 1e-2 mmol/g; the clause asserted is residual RMS <= "
     "1 % of the input RMS, never tighter than 5e-2 mmol/g (x the loading scale of a user kernel in larger units) (probe on the "
     "unchanged tree, 14 000 cases: <= 5e-3 relative for input RMS in [1, 12] mmol/g, <= 1.5e-2 mmol/g absolute below)",
-    "a CalculationError from the optimiser itself (reported failure) on an exact combination is counted as "
-    "inconclusive, not as a violation",
+    "a CalculationError from the optimiser itself (reported failure) on an exact combination is a violation: the fit is "
+    "a non-negative least squares problem (finite algorithm; never observed on the repaired tree in 10^5 cases)",
     "the kernel's pressure range is [0, last node] for the refusal clause (zero row prepended) and grids are generated "
     "inside [first node, last node]; pressures in (0, first node) are not generated (property silent)",
     "limits are generated strictly between data points (property silent on open/closed ends); a window with fewer "
@@ -293,7 +293,13 @@ def _weights(nw):
                       unique_by=lambda t: t[0]).map(lambda l: [list(t) for t in sorted(l)])
     dense = st.lists(st.integers(0, 1000), min_size=nw, max_size=nw).map(
         lambda l: [[i, v] for i, v in enumerate(l) if v > 0] or [[0, 1]])
-    return st.one_of(sparse, dense)
+    # between the two: 8-30 active widths (random subsets and regular strides) - numerically the hardest class for the
+    # active-set solver (many exchanges before the support is identified)
+    medium = st.lists(st.tuples(st.integers(0, nw - 1), st.integers(1, 1000)), min_size=min(8, nw), max_size=min(30, nw),
+                      unique_by=lambda t: t[0]).map(lambda l: [list(t) for t in sorted(l)])
+    strided = st.builds(lambda off, step, vals: [[i, vals[k % len(vals)]] for k, i in enumerate(range(off % step, nw, step))] or [[0, 1]],
+                        st.integers(0, 6), st.integers(3, 6), st.lists(st.integers(1, 1000), min_size=1, max_size=8))
+    return st.one_of(sparse, dense, medium, strided)
 
 
 def _logu(a, b, u):
@@ -461,7 +467,8 @@ def _kernel_label(kd):
 
 
 def _weights_label(desc):
-    return "weights_sparse" if len(desc["weights"]) <= 6 else "weights_dense"
+    n = len(desc["weights"])
+    return "weights_sparse" if n <= 6 else "weights_medium" if n <= 30 else "weights_dense"
 
 
 def _grid_label(g):
@@ -492,8 +499,10 @@ def check_fit(desc, ctx):
             w0, d0, c0, kl0 = _raw_fit(p, L, karg, 0, desc["as_list"])
         except CalculationError as e:
             if "Minimization of DFT failed" in str(e):
-                ctx.label("optimiser_reported_failure")
-                raise Inconclusive()
+                # non-negative least squares is a finite algorithm: an exact non-negative combination on a grid inside
+                # the kernel's range has a fitted isotherm that matches it - a refusal is not one
+                raise Violation(f"{what}: an exact non-negative combination of kernel isotherms is refused by the optimiser: {e}",
+                                tag="exact_combination_refused")
             raise Violation(f"{what}: pressures inside the kernel range [{ref.pmin!r}, {ref.pmax!r}] refused: {e}",
                             tag="refused_inside_range")
         assert_distribution(w0, d0, c0, what)
